@@ -79,7 +79,7 @@ class Prop(PoolProp):
         calls = [(rng.choice([0, 1, 2, 3, 4, 6, 10]), 1 if mulp else rng.choice([1, 1, 2, 3])) for _ in range(ncalls)]
         return FCfg(rng.choice([1, 2, 2, 3, 4]), mulp, calls, exact=(not mulp and rng.random() < 0.4), input_kind=rng.randrange(5),
                     idle_gen=(not mulp and rng.random() < 0.2), body_raises=(not mulp and rng.random() < 0.2),
-                    none_inputs=rng.random() < 0.25)
+                    none_inputs=rng.random() < 0.25, impatient=(tier != "cover" and rng.random() < 0.15))
 
     def gen_chooser(self, rng):
         r = rng.random()
